@@ -114,7 +114,8 @@ def _worker(items, base):
         for why in descriptor_issues(shape):
             out["violations"].append({"driver": "descriptor", "size": abi_gen.depth(shape), "title": "%s: %s" % (abi_gen.sig(shape), why),
                                       "shape": shape, "features": {"why": "descriptor"}})
-        vals = abi_gen.values(shape, cap=_CAP, rich=_RICH)
+        # values whose encoding does not fit an AVM byte string (4096) cannot be observed: outside the alphabet
+        vals = [v for v in abi_gen.values(shape, cap=_CAP, rich=_RICH) if len(abi_gen.encode(shape, v)) <= 4000]
         for v in vals:
             for mode in ("lit", "expr"):
                 for backend in ("main", "sub"):
